@@ -4,6 +4,7 @@ import (
 	"fmt"
 	"os"
 	"path/filepath"
+	"strings"
 	"testing"
 	"time"
 
@@ -103,6 +104,15 @@ func TestVerifC14Agent(t *testing.T) {
 		// a record of the previous default is now upgradeable: a login rewrites it under the new default
 		if n > 1 {
 			old := fmt.Sprintf("u%d", n-1)
+			// the record to be upgraded was written long ago (only its time field is rewritten here)
+			for _, ext := range []string{".user", ".admin"} {
+				fp := filepath.Join(st.Base, old+ext)
+				if b, err := os.ReadFile(fp); err == nil {
+					if f := strings.SplitN(string(b), ":", 3); len(f) == 3 {
+						os.WriteFile(fp, []byte(f[0]+":"+fmt.Sprint(time.Now().Unix()-90*86400)+":"+f[2]), 0600) //nolint:errcheck
+					}
+				}
+			}
 			t0 = time.Now().Unix()
 			if ok, _, _, _ := iface.Authenticate(old, "updated-"+old); ok {
 				iface.Update("zz-barrier", "x") //nolint:errcheck (FIFO barrier: the queued upgrade has run)
